@@ -99,7 +99,7 @@ const c11Rule = "case = a template cache built by a generated announce/re-announ
 	"(b) crash points: EVERY prefix F[:k] (all k when |F| <= 6 KiB, otherwise the first/last 1.5 KiB, 64 octets around every shard boundary and 600 sampled offsets) is loaded; " +
 	"(c) byte-level (flip, delete, insert, duplicate a range) and structure-level corruptions via a generic JSON tree (drop/null shards, null or wrongly typed Templates, extra shards, wrong/huge/negative/string ShardNo, " +
 	"null or garbage template entries, entry keys that are empty / too short / odd / not hexadecimal / very long / in the wrong shard, non-object documents, duplicate keys, deep nesting; every template's time of announcement moved 32 min .. 10 years back, to 0 or -1, or ahead) plus absent/empty/directory paths; " +
-	"oracle = loading never panics and every call comes back (a call that sits blocked for ten seconds is a violation); the loaded cache is usable: announcing a template and decoding data works for 32 probe keys covering all 32 shards and agrees with the reference model; " +
+	"oracle = loading never panics and every call comes back (a call that sits blocked for half a minute with the process idle is a violation); the loaded cache is usable: announcing a template and decoding data works for 32 probe keys covering all 32 shards and agrees with the reference model; " +
 	"for prefixes and removal-only corruptions every saved key yields 'unknown' or exactly its saved template; " +
 	"non-trivial = some corrupted file still parses as JSON with a shape different from the saved one, or a prefix cuts inside a template; distinct by hash"
 
@@ -283,6 +283,7 @@ func callReturns(f func()) bool {
 		return true
 	case <-time.After(10 * time.Second):
 	}
+	idle := 0
 	for i := 0; i < 30; i++ {
 		c0 := processCPU()
 		select {
@@ -290,8 +291,13 @@ func callReturns(f func()) bool {
 			return true
 		case <-time.After(10 * time.Second):
 		}
-		if processCPU()-c0 < 200*time.Millisecond {
-			return false
+		// two windows of ten seconds in a row with next to no processor time: nothing of this process runs
+		if processCPU()-c0 < 50*time.Millisecond {
+			if idle++; idle >= 2 {
+				return false
+			}
+		} else {
+			idle = 0
 		}
 	}
 	return false
